@@ -7,3 +7,8 @@ package database
 
 //@ func (*db).ExecAll
 //@   order write_excluded_before_commit: d.mutex.Lock before d.st.CommitWith
+
+// Reference resolution inside a read that was given an index (a snapshot, or the live index) must resolve the
+// referenced key through THE SAME index: a read on a snapshot never mixes in later commits (call-site assertion).
+//@ func (*db).resolveValue
+//@   assertat d.getAtTx c06_same_index: arg5 == index
